@@ -281,6 +281,16 @@ func (c *Ctx) oblige(st *State, kind, label string, pos token.Pos, goal Term, te
 	if st.dead() {
 		return nil
 	}
+	if c.fc != nil && c.fc.Opts["only-stated"] != "" {
+		// "opt only-stated": a thin contract that states only its own assertions (at-stmt / at-call / ensures / invariants)
+		// about the executions that reach them; run-time faults and callee preconditions are not this contract's subject:
+		// nothing is assumed in their place
+		stated := kind == "ensures" || strings.HasPrefix(kind, "inv-") || (kind == "call" && (strings.Contains(label, "at-stmt") || strings.Contains(label, "at-call")))
+		if !stated {
+			c.trusted["only-stated contract: bounds, nil, overflow, frame and callee-precondition obligations are not generated here (the listed assertions hold for every execution that reaches them without such a fault)"] = true
+			return nil
+		}
+	}
 	c.counters[kind]++
 	name := fmt.Sprintf("%s/%s#%d", c.fnName, kind, c.counters[kind])
 	if label != "" {
